@@ -593,15 +593,6 @@ Qed.
 Theorem parse_total s : (exists ps, parse s = POk ps) \/ (exists st c, parse s = PErr st c).
 Proof. destruct (parse s) as [ps|st c]; [left; exists ps; reflexivity | right; exists st, c; reflexivity]. Qed.
 
-Definition err_site (st : tstate) (c : N) : bool :=
-  match st with
-  | SDoubleClose => negb (c =? 125)
-  | SMaybeOpen => (c =? 125) || (c =? 58)
-  | SAlign => negb ((c =? 60) || (c =? 94) || (c =? 62) || is_digit c || (c =? 33) || (c =? 46) || (c =? 125))
-  | SWidth => negb ((c =? 33) || is_digit c)
-  | _ => false
-  end.
-
 Lemma phase2_none_width old new parts buf :
   phase2 old new parts buf = None -> old = SWidth /\ (new = SFirstStyle \/ new = SLiteral).
 Proof.
@@ -651,25 +642,12 @@ Proof.
 Qed.
 
 (** * one output line per template line (a property of [render_spec]) *)
-Definition is_sep (i : item) : bool :=
-  match i with INewline => true | IBraceWs c => c =? 10 | _ => false end.
-Definition no_sep (t : list item) : bool := forallb (fun i => negb (is_sep i)) t.
-
 Section Lines.
   Variable expand : ph -> list N.
   Variable tw : N.
 
-  (* the text of an item that does not end a line *)
-  Definition item_text (i : item) : list N :=
-    match i with
-    | ILit s => expand_tabs tw s
-    | IEscOpen => [123]
-    | IEscClose => [125]
-    | IBraceWs c => expand_tabs tw [123; c]
-    | INewline => []
-    | IPh k f => expand (ph_of k f)
-    end.
-  Definition text (t : list item) : list N := flat_map item_text t.
+  Local Notation item_text := (item_text expand tw).
+  Local Notation text := (text expand tw).
 
   Lemma fold_no_sep t : forall L cur,
     no_sep t = true -> fold_left (sstep expand tw) t (L, cur) = (L, cur ++ text t).
@@ -829,16 +807,295 @@ Qed.
 Lemma list_eqb_N_refl (a : list N) : list_eqb N.eqb a a = true.
 Proof. induction a as [|x a IH]; cbn [list_eqb]; [reflexivity|]. rewrite N.eqb_refl. exact IH. Qed.
 
-Theorem unknown_key_nothing env styles p :
+Lemma not_builtin_not_bar k : is_builtin k = false -> list_eqb N.eqb k key_bar = false.
+Proof.
+  intros Hb. destruct (list_eqb N.eqb k key_bar) eqn:E; [|reflexivity].
+  exfalso. apply list_eqb_N_eq in E. unfold is_builtin in Hb.
+  assert (Ht : existsb (list_eqb N.eqb k) builtin_keys = true).
+  { apply existsb_exists. exists key_bar. split; [exact key_bar_builtin|]. rewrite E. apply list_eqb_N_refl. }
+  congruence.
+Qed.
+
+(* the dispatch on an unknown key leaves the scratch buffer empty, whatever it held *)
+Lemma key_dispatch_unknown env styles p old :
   assoc (ph_key p) env = None -> is_builtin (ph_key p) = false ->
-  expand_exec env styles p =
+  key_dispatch env styles p old = [].
+Proof.
+  intros Ha Hb. unfold key_dispatch. rewrite Ha, (not_builtin_not_bar _ Hb). reflexivity.
+Qed.
+
+Lemma key_dispatch_clears env styles p old : key_dispatch env styles p old = key_dispatch env styles p [].
+Proof. reflexivity. Qed.
+
+Lemma ph_emit_unknown env styles p :
+  assoc (ph_key p) env = None -> is_builtin (ph_key p) = false ->
+  ph_emit env styles p [] =
   styled styles (ph_style p) (match ph_width p with Some w => nrepeat 32 w | None => [] end).
 Proof.
-  intros Ha Hb. unfold expand_exec. rewrite Ha.
-  destruct (list_eqb N.eqb (ph_key p) key_bar) eqn:E.
-  - exfalso. apply list_eqb_N_eq in E. unfold is_builtin in Hb.
-    assert (Ht : existsb (list_eqb N.eqb (ph_key p)) builtin_keys = true).
-    { apply existsb_exists. exists key_bar. split; [exact key_bar_builtin|]. rewrite E. apply list_eqb_N_refl. }
-    congruence.
-  - destruct (ph_width p); [rewrite padded_empty|]; reflexivity.
+  intros Ha Hb. unfold ph_emit, is_bar0. rewrite Ha, (not_builtin_not_bar _ Hb).
+  destruct (ph_width p); [rewrite padded_empty|]; reflexivity.
+Qed.
+
+(** one step of format_state on an unknown key, for ANY contents of the scratch buffer *)
+Theorem unknown_key_step env styles tw a old p :
+  assoc (ph_key p) env = None -> is_builtin (ph_key p) = false ->
+  fstep env styles tw (a, old) (PPh p) =
+  (add_text a (styled styles (ph_style p)
+                 (match ph_width p with Some w => nrepeat 32 w | None => [] end)), []).
+Proof.
+  intros Ha Hb. cbn [fstep fst snd]. rewrite (key_dispatch_unknown env styles p old Ha Hb).
+  rewrite (ph_emit_unknown env styles p Ha Hb). reflexivity.
+Qed.
+
+(** the buffer-threading walk is the part-by-part rendering with [expand_exec] *)
+Lemma fmt_fold env styles tw ps : forall a old,
+  fst (fold_left (fstep env styles tw) ps (a, old)) =
+  fold_left (rstep (expand_exec env styles) tw) ps a.
+Proof.
+  induction ps as [|pt r IH]; intros a old; cbn [fold_left]; [reflexivity|].
+  destruct pt as [s|q|]; cbn [fstep rstep fst snd]; rewrite IH; reflexivity.
+Qed.
+
+Theorem fmt_render_parts env styles tw ps :
+  fmt_render env styles tw ps = render_parts (expand_exec env styles) tw ps.
+Proof. unfold fmt_render, render_parts. rewrite fmt_fold. reflexivity. Qed.
+
+Lemma nrepeat_succ {A} (x : A) n : nrepeat x (N.succ n) = x :: nrepeat x n.
+Proof. unfold nrepeat. apply N.iter_succ. Qed.
+
+Lemma expand_tabs_spaces tw n : expand_tabs tw (nrepeat 32 n) = nrepeat 32 n.
+Proof.
+  induction n as [|n IH] using N.peano_ind; [reflexivity|].
+  rewrite nrepeat_succ. unfold expand_tabs in *. cbn [flat_map N.eqb Pos.eqb app]. rewrite IH. reflexivity.
+Qed.
+
+Lemma lit_ok_spaces n : lit_ok (nrepeat 32 n) = true.
+Proof.
+  induction n as [|n IH] using N.peano_ind; [reflexivity|].
+  rewrite nrepeat_succ. unfold lit_ok in *. cbn [forallb]. rewrite IH. reflexivity.
+Qed.
+
+Lemma wf_app t1 t2 : wf (t1 ++ t2) = wf t1 && wf t2.
+Proof. unfold wf. apply forallb_app. Qed.
+
+Lemma wf_pad_items fo : wf (pad_items fo) = true.
+Proof.
+  destruct fo as [f|]; [|reflexivity]. unfold pad_items. destruct (f_width f) as [|d r]; [reflexivity|].
+  unfold wf. cbn [forallb wf_item]. rewrite lit_ok_spaces. reflexivity.
+Qed.
+
+(* on the specification side: the unknown placeholder contributes what [pad_items] does *)
+Lemma sstep_unknown env styles tw a k fo :
+  assoc k env = None -> is_builtin k = false -> unstyled fo = true ->
+  sstep (expand_exec env styles) tw a (IPh k fo) =
+  fold_left (sstep (expand_exec env styles) tw) (pad_items fo) a.
+Proof.
+  intros Ha Hb Hs. cbn [sstep]. unfold expand_exec.
+  assert (Hk : ph_key (ph_of k fo) = k) by (destruct fo; reflexivity).
+  rewrite key_dispatch_unknown by (rewrite Hk; assumption).
+  rewrite ph_emit_unknown by (rewrite Hk; assumption).
+  destruct fo as [f|]; cbn [unstyled] in Hs.
+  - destruct (f_style f) as [sty|] eqn:Es; [discriminate|].
+    unfold ph_of, pad_items. rewrite Es. cbn [ph_style ph_width styled].
+    destruct (f_width f) as [|d r]; cbn [fold_left sstep].
+    + unfold add_text. rewrite app_nil_r. destruct a; reflexivity.
+    + rewrite expand_tabs_spaces. reflexivity.
+  - cbn [ph_of pad_items ph_style ph_width styled fold_left].
+    unfold add_text. rewrite app_nil_r. destruct a; reflexivity.
+Qed.
+
+(** C10 "unknown keys expand to nothing", at the level of whole templates: a template of the
+    grammar with an (unstyled) unknown key renders exactly as the same template with that
+    placeholder deleted - replaced by the blanks its width asks for, if it has one. *)
+Theorem unknown_key_deleted env styles tw t1 t2 k fo :
+  wf (t1 ++ IPh k fo :: t2) = true ->
+  assoc k env = None -> is_builtin k = false -> unstyled fo = true ->
+  exists ps ps',
+    parse (print (t1 ++ IPh k fo :: t2)) = POk ps /\
+    parse (print (t1 ++ pad_items fo ++ t2)) = POk ps' /\
+    fmt_render env styles tw ps = fmt_render env styles tw ps'.
+Proof.
+  intros Hw Ha Hb Hs.
+  assert (Hw' : wf (t1 ++ pad_items fo ++ t2) = true).
+  { rewrite wf_app in Hw. apply andb_prop in Hw. destruct Hw as [H1 H2].
+    cbn [wf forallb] in H2. apply andb_prop in H2. destruct H2 as [_ H2]. fold (wf t2) in H2.
+    rewrite !wf_app, H1, H2, wf_pad_items. reflexivity. }
+  destruct (fidelity (expand_exec env styles) tw _ Hw) as (ps & Hp & Hr).
+  destruct (fidelity (expand_exec env styles) tw _ Hw') as (ps' & Hp' & Hr').
+  exists ps, ps'. split; [exact Hp|]. split; [exact Hp'|].
+  rewrite !fmt_render_parts, Hr, Hr'. unfold render_spec.
+  rewrite !fold_left_app. cbn [fold_left]. rewrite (sstep_unknown env styles tw _ k fo Ha Hb Hs).
+  reflexivity.
+Qed.
+
+(** * no panic: the three-outcome parser never takes a panic branch *)
+Lemma str_from_0 s : str_from 0 s = Some s.
+Proof. destruct s; reflexivity. Qed.
+
+(* the guard `on_c.starts_with("on_")` (console utils.rs:225) makes `on_c[3..]` (:226) safe:
+   three one-byte characters precede byte 3 *)
+Lemma starts_with_on_slice piece :
+  starts_with ON_PREFIX piece = true -> str_from 3 piece = Some (skipn 3 piece).
+Proof.
+  unfold ON_PREFIX. intros H.
+  destruct piece as [|a [|b [|c r]]]; cbn [starts_with] in H;
+    try (rewrite ?andb_false_r in H; discriminate).
+  apply andb_prop in H. destruct H as [Ha H]. apply andb_prop in H. destruct H as [Hb H].
+  apply andb_prop in H. destruct H as [Hc _].
+  apply N.eqb_eq in Ha, Hb, Hc. subst a b c.
+  cbn [str_from N.eqb utf8_len N.ltb N.leb N.compare Pos.compare Pos.compare_cont N.sub Pos.sub Pos.pred_double
+       Pos.sub_mask Pos.double_mask Pos.succ_double_mask Pos.double_pred_mask skipn].
+  apply str_from_0.
+Qed.
+
+Lemma dotted_piece_no_panic piece : dotted_piece_panics piece = false.
+Proof.
+  unfold dotted_piece_panics. destruct (starts_with ON_PREFIX piece) eqn:E; [|reflexivity].
+  rewrite (starts_with_on_slice piece E). reflexivity.
+Qed.
+
+Lemma dotted_str_no_panic s : dotted_str_panics s = false.
+Proof.
+  unfold dotted_str_panics. induction (split_on 46 s) as [|x l IH]; [reflexivity|].
+  cbn [existsb]. rewrite dotted_piece_no_panic, IH. reflexivity.
+Qed.
+
+Definition lift2 (o : option (list part * list N)) : p2res :=
+  match o with Some (p, b) => P2Ok p b | None => P2Err end.
+
+Lemma phase2_full_erase old new parts buf :
+  phase2_full WMapErr old new parts buf = lift2 (phase2 old new parts buf).
+Proof.
+  unfold phase2_full, phase2. rewrite (dotted_str_no_panic buf).
+  destruct (nonempty buf); [|reflexivity].
+  destruct old, new; try reflexivity; destruct parts as [|[s|p|] r]; try reflexivity;
+    destruct (parse_u16 buf); reflexivity.
+Qed.
+
+Definition lift_step (r : step_res) : step_out :=
+  match r with SOk s => TOk s | SErr st c => TErr st c end.
+
+Lemma tstep_full_erase s c : tstep_full WMapErr s c = lift_step (tstep s c).
+Proof.
+  unfold tstep_full, tstep.
+  destruct (phase1 (p_state s) c (p_parts s) (p_buf s)) as [[[[new push] parts1] buf1]|]; [|reflexivity].
+  rewrite phase2_full_erase. destruct (phase2 (p_state s) new parts1 buf1) as [[parts2 buf2]|]; reflexivity.
+Qed.
+
+Lemma trun_full_erase cs : forall s, trun_full WMapErr s cs = lift_step (trun s cs).
+Proof.
+  induction cs as [|c r IH]; intros s; cbn [trun_full trun]; [reflexivity|].
+  rewrite tstep_full_erase. destruct (tstep s c) as [s'|st c']; cbn [lift_step]; [apply IH | reflexivity].
+Qed.
+
+(** C10 totality: for EVERY string the current code's three-outcome parser returns what the
+    two-outcome machine returns - never [PPanic]. *)
+Theorem parse_full_total s : parse_full s = PRes (parse s).
+Proof.
+  unfold parse_full, parse_gen, parse. rewrite trun_full_erase.
+  destruct (trun pinit0 s); reflexivity.
+Qed.
+
+Corollary parse_full_no_panic s site : parse_full s <> PPanic site.
+Proof. rewrite parse_full_total. discriminate. Qed.
+
+(** * a TemplateError in state Width at '.' or '}' means: the digits collected so far denote a
+    number that does not fit u16 *)
+Definition winv (s : pst) : Prop :=
+  (p_state s = SAlign -> p_buf s = []) /\
+  (p_state s = SWidth -> forallb is_digit (p_buf s) = true).
+
+Lemma forallb_snoc {A} (f : A -> bool) l x : forallb f (l ++ [x]) = forallb f l && f x.
+Proof. rewrite forallb_app. cbn [forallb]. rewrite andb_true_r. reflexivity. Qed.
+
+Lemma phase2_keeps old new parts buf parts' buf' :
+  phase2 old new parts buf = Some (parts', buf') ->
+  (old = SKey -> new = SAlign -> buf' = []) /\
+  (old = SAlign \/ old = SWidth -> new = SWidth -> buf' = buf).
+Proof.
+  unfold phase2. destruct buf as [|b0 br]; cbn [nonempty].
+  - intros H. injection H as <- <-. split; intros _ _; reflexivity.
+  - intros H. split.
+    + intros -> ->. injection H as <- <-. reflexivity.
+    + intros [-> | ->] ->; injection H as <- <-; reflexivity.
+Qed.
+
+Lemma tstep_winv s c s' : winv s -> tstep s c = SOk s' -> winv s'.
+Proof.
+  destruct s as [st parts buf]. unfold winv, tstep. cbn [p_state p_parts p_buf].
+  intros [Ha Hw] H.
+  destruct (phase1 st c parts buf) as [[[[new push] parts1] buf1]|] eqn:E1; [|discriminate].
+  destruct (phase2 st new parts1 buf1) as [[parts2 buf2]|] eqn:E2; [|discriminate].
+  injection H as <-. cbn [p_state p_buf].
+  destruct (phase2_keeps _ _ _ _ _ _ E2) as [K1 K2].
+  destruct st; cbn [phase1] in E1;
+    repeat match type of E1 with
+           | (if ?b then _ else _) = _ => destruct b eqn:?
+           end;
+    try discriminate; injection E1 as <- <- <- <-;
+    (split; intros Hn; try discriminate).
+  all: try (rewrite K1 by reflexivity; reflexivity).
+  all: try (rewrite K2 by (first [left; reflexivity | right; reflexivity] || reflexivity)).
+  all: try (rewrite (Ha eq_refl); reflexivity).
+  all: try (rewrite (Ha eq_refl); cbn [app forallb]; rewrite ?andb_true_r; assumption).
+  all: try (apply Hw; reflexivity).
+  all: try (rewrite forallb_snoc, (Hw eq_refl); assumption).
+Qed.
+
+Lemma trun_winv cs : forall s f, winv s -> trun s cs = SOk f -> winv f.
+Proof.
+  induction cs as [|c r IH]; intros s f Hs H; cbn [trun] in H.
+  - injection H as <-. exact Hs.
+  - destruct (tstep s c) as [s'|] eqn:E; [|discriminate].
+    eapply IH; [|exact H]. eapply tstep_winv; [exact Hs | exact E].
+Qed.
+
+Lemma winv_init : winv pinit0.
+Proof. split; intros H; [reflexivity | discriminate]. Qed.
+
+(* the step at which a run fails *)
+Lemma trun_err_split cs : forall s st c,
+  trun s cs = SErr st c ->
+  exists s1 s2 f, cs = s1 ++ c :: s2 /\ trun s s1 = SOk f /\ tstep f c = SErr st c.
+Proof.
+  induction cs as [|x r IH]; intros s st c H; cbn [trun] in H; [discriminate|].
+  destruct (tstep s x) as [s'|st' c'] eqn:E.
+  - destruct (IH _ _ _ H) as (s1 & s2 & f & -> & Hr & Hs).
+    exists (x :: s1), s2, f. split; [reflexivity|]. split; [|exact Hs].
+    cbn [trun]. rewrite E. exact Hr.
+  - injection H as -> ->. pose proof (tstep_err _ _ _ _ E) as (_ & -> & _).
+    exists [], r, s. split; [reflexivity|]. split; [reflexivity | exact E].
+Qed.
+
+Lemma tstep_width_end f c :
+  winv f -> (c = 46 \/ c = 125) -> tstep f c = SErr SWidth c ->
+  p_buf f <> [] /\ forallb is_digit (p_buf f) = true /\ U16 <= digits_value (p_buf f).
+Proof.
+  intros [_ Hw] Hc H. pose proof (tstep_err _ _ _ _ H) as (Hst & _ & _). symmetry in Hst.
+  specialize (Hw Hst). destruct f as [st parts buf]. cbn [p_state p_buf] in *. subst st.
+  unfold tstep in H. cbn [p_state p_parts p_buf] in H.
+  assert (Hne : buf <> []).
+  { intros ->. destruct Hc as [-> | ->]; cbn in H; discriminate. }
+  split; [exact Hne|]. split; [exact Hw|].
+  pose proof (parse_u16_digits buf Hne Hw) as Hp.
+  destruct (N.ltb_spec (digits_value buf) U16) as [Hlt|Hge]; [|exact Hge].
+  exfalso. destruct buf as [|b0 br]; [contradiction|].
+  destruct Hc as [-> | ->]; cbn [phase1 N.eqb Pos.eqb is_digit N.leb N.compare Pos.compare Pos.compare_cont andb] in H;
+    cbn [phase2 nonempty] in H; destruct parts as [|[s|p|] r]; try discriminate;
+    rewrite Hp in H; discriminate.
+Qed.
+
+Theorem parse_err_width_overflow s c :
+  parse s = PErr SWidth c -> c = 46 \/ c = 125 ->
+  exists s1 s2 f,
+    s = s1 ++ c :: s2 /\ trun pinit0 s1 = SOk f /\ p_state f = SWidth /\
+    p_buf f <> [] /\ forallb is_digit (p_buf f) = true /\ U16 <= digits_value (p_buf f).
+Proof.
+  unfold parse. destruct (trun pinit0 s) as [|st c'] eqn:E; [discriminate|].
+  intros H Hc. injection H as -> ->.
+  destruct (trun_err_split _ _ _ _ E) as (s1 & s2 & f & Hs & Hr & Ht).
+  exists s1, s2, f. split; [exact Hs|]. split; [exact Hr|].
+  pose proof (tstep_err _ _ _ _ Ht) as (Hst & _ & _). split; [symmetry; exact Hst|].
+  apply (tstep_width_end f c); [|exact Hc | exact Ht].
+  eapply trun_winv; [exact winv_init | exact Hr].
 Qed.
